@@ -2,3 +2,6 @@ import MsiModel.Res
 import MsiModel.Wire
 import MsiModel.Language
 import MsiModel.Timestamp
+import MsiModel.Value
+import MsiModel.Expr
+import MsiModel.WireExpr
